@@ -616,6 +616,210 @@ theorem partition_coordinates_total (axes : List Axis) (centers : List (List Rat
   simp at hneg
   omega
 
+/-! ## (d) geometry locality, neighbouring entry points, decidable hypotheses -/
+
+theorem getD_of_map_eq {α β γ : Type} {l : List α} {l' : List β} {f : α → γ} {g : β → γ}
+    (h : l.map f = l'.map g) (i : Nat) (hi : i < l.length) (d : α) (d' : β) :
+    f (l.getD i d) = g (l'.getD i d') := by
+  have hl : l.length = l'.length := by simpa using congrArg List.length h
+  have h1 : (l.map f)[i]? = (l'.map g)[i]? := by rw [h]
+  simp only [List.getElem?_map, List.getElem?_eq_getElem hi,
+    List.getElem?_eq_getElem (show i < l'.length by omega), Option.map_some, Option.some.injEq] at h1
+  simp [List.getD_eq_getElem?_getD, List.getElem?_eq_getElem hi,
+    List.getElem?_eq_getElem (show i < l'.length by omega), h1]
+
+theorem subCoords_getD (coords : List (List Rat)) (nm : List Nat) {ln : Nat} (h : ln < nm.length) :
+    (subCoords coords nm).getD ln [] = coords.getD (nm.getD ln 0) [] := by
+  unfold subCoords
+  rw [getD_map' _ nm h [] 0]
+
+/-- **Locality of the geometric input.**  In the extracted grid (node coordinates `g.nodes[:, node_map]`) every
+    face has the same node coordinates in the same order as its parent face, and every cell has the same
+    faces in the same order, with the same signs and the same node coordinates, as its parent cell.  So every
+    quantity that `compute_geometry` computes from a face's nodes (area, centre, normal) or from a cell's own
+    signed faces and their nodes (centre, volume) is the same function applied to the same data. -/
+theorem extract_geometry_local (g : Topo) (c : List Nat) (sort : Bool) (r : Sub)
+    (coords : List (List Rat)) (h : extract g c sort = .ok r) :
+    (∀ i, i < r.faceMap.length →
+      faceData r.fn (subCoords coords r.nodeMap) i = faceData g.fn coords (r.faceMap.getD i 0)) ∧
+    (∀ j, j < r.cells.length →
+      cellData r.cfFaces r.cfSigns r.fn (subCoords coords r.nodeMap) j
+        = cellData g.cfFaces g.cfSigns g.fn coords (r.cells.getD j 0)) := by
+  obtain ⟨_, _, _, _, _, _, _, _, f3, hsg, n3, f4, n4⟩ := extract_maps_point_to_parent g c sort r h
+  have hfnlen : r.fn.length = r.faceMap.length := by simpa using congrArg List.length n3
+  have hcflen : r.cfFaces.length = r.cells.length := by simpa using congrArg List.length f3
+  have hface : ∀ i, i < r.faceMap.length →
+      faceData r.fn (subCoords coords r.nodeMap) i = faceData g.fn coords (r.faceMap.getD i 0) := by
+    intro i hi
+    have hi' : i < r.fn.length := by omega
+    have e := getD_of_map_eq n3 i hi' [] 0
+    unfold faceData
+    rw [← e, List.map_map]
+    apply List.map_congr_left
+    intro ln hln
+    have hmem : r.fn.getD i [] ∈ r.fn := by
+      rw [List.getD_eq_getElem?_getD, List.getElem?_eq_getElem hi']; exact List.getElem_mem hi'
+    exact subCoords_getD coords r.nodeMap (n4 _ hmem ln hln)
+  refine ⟨hface, ?_⟩
+  intro j hj
+  have hj' : j < r.cfFaces.length := by omega
+  have e := getD_of_map_eq f3 j hj' [] 0
+  have hs : r.cfSigns.getD j [] = g.cfSigns.getD (r.cells.getD j 0) [] := by
+    rw [hsg]; exact getD_map' _ r.cells hj [] 0
+  unfold cellData
+  rw [← e, hs, List.zip_map_left, List.map_map]
+  apply List.map_congr_left
+  intro p hp
+  have hmem : r.cfFaces.getD j [] ∈ r.cfFaces := by
+    rw [List.getD_eq_getElem?_getD, List.getElem?_eq_getElem hj']; exact List.getElem_mem hj'
+  have hlt := f4 _ hmem p.1 (List.of_mem_zip hp).1
+  simp only [Function.comp, Prod.map, id]
+  rw [hface p.1 hlt]
+
+/-- `expand_indices_nd`: component `d` of entry `k` sits at position `k·nd + d` and is `nd·ind[k] + d`;
+    it stays within `n·nd` when `ind[k] < n`, and two positions hold the same value only if they are the
+    same component of entries with the same index — so for duplicate-free `ind` (face_map / cells of an
+    extracted grid) the selection matrices of `subgrid_to_grid_mapping` have at most one 1 per row and
+    column, at the parent entity's own block. -/
+theorem expand_indices_spec (ind : List Nat) (nd k d : Nat) (hk : k < ind.length) (hd : d < nd) :
+    (expandNd ind nd).getD (d + nd * k) 0 = nd * ind.getD k 0 + d ∧
+    (∀ n, ind.getD k 0 < n → nd * ind.getD k 0 + d < n * nd) ∧
+    (∀ k' d', d' < nd → nd * ind.getD k 0 + d = nd * ind.getD k' 0 + d' →
+      ind.getD k 0 = ind.getD k' 0 ∧ d = d') := by
+  refine ⟨?_, ?_, ?_⟩
+  · unfold expandNd
+    rw [getD_flatMap_uniform _ nd 0 0 ind (by intro y _; simp) d k hd hk,
+      getD_map_range _ _ hd]
+  · intro n hn
+    have : nd * (ind.getD k 0 + 1) ≤ nd * n := Nat.mul_le_mul_left _ hn
+    rw [Nat.mul_succ] at this
+    rw [Nat.mul_comm n nd]
+    omega
+  · intro k' d' hd' he
+    have h1 : (nd * ind.getD k 0 + d) / nd = ind.getD k 0 := by
+      rw [Nat.mul_add_div (by omega), Nat.div_eq_of_lt hd]; omega
+    have h2 : (nd * ind.getD k' 0 + d') / nd = ind.getD k' 0 := by
+      rw [Nat.mul_add_div (by omega), Nat.div_eq_of_lt hd']; omega
+    have h3 : ind.getD k 0 = ind.getD k' 0 := by rw [← h1, ← h2, he]
+    rw [h3] at he
+    exact ⟨h3, by omega⟩
+
+/-- `subgrid_to_grid_mapping` answers iff all local faces / cells exist in the parent, and then returns
+    exactly the expanded index vectors. -/
+theorem subgrid_to_grid_answers (numFaces numCells : Nat) (locFaces locCells : List Nat) (nd : Nat)
+    (hf : ∀ f ∈ locFaces, f < numFaces) (hc : ∀ c ∈ locCells, c < numCells) :
+    subgridToGrid numFaces numCells locFaces locCells nd
+      = .ok (expandNd locFaces nd, expandNd locCells nd) := by
+  have key : ∀ (ind : List Nat) (n : Nat), (∀ i ∈ ind, i < n) →
+      (expandNd ind nd).any (fun i => decide (n * nd ≤ i)) = false := by
+    intro ind n h
+    apply Bool.eq_false_iff.mpr
+    intro hany
+    obtain ⟨v, hv, hdec⟩ := List.any_eq_true.mp hany
+    simp only [expandNd, List.mem_flatMap, List.mem_map, List.mem_range] at hv
+    obtain ⟨i, hi, d, hd, rfl⟩ := hv
+    have := h i hi
+    have h2 : nd * (i + 1) ≤ nd * n := Nat.mul_le_mul_left _ this
+    rw [Nat.mul_succ, Nat.mul_comm nd n] at h2
+    simp at hdec
+    omega
+  unfold subgridToGrid
+  simp only [key locFaces numFaces hf, key locCells numCells hc, Bool.or_self, Bool.false_eq_true, if_false]
+
+/-- the decidable input conditions evaluated by the driver are the hypotheses of the theorems -/
+theorem hypotheses_decidable (fine coarse : List Nat) (axes : List Axis) (x : List Rat) :
+    (dimsOkB fine coarse = true ↔ DimsOk fine coarse) ∧ (allOkB axes x = true ↔ AllOk axes x) := by
+  constructor
+  · simp [dimsOkB, DimsOk, List.all_eq_true]
+  · induction axes generalizing x with
+    | nil => cases x <;> simp [allOkB, AllOk]
+    | cons a as ih =>
+      cases x with
+      | nil => simp [allOkB, AllOk]
+      | cons x xs => simp [allOkB, AllOk, AxisOk, ih xs, and_assoc]
+
+/-- `partition_structured(coarse_dims=…)` on 1–3 axes with positive coarse sizes answers iff
+    `coarse ≤ fine` on every axis (otherwise ValueError: `fine_per_coarse = 0`). -/
+theorem partition_structured_answers_iff (fine coarse : List Nat) (hl : fine.length = coarse.length)
+    (hnd : 1 ≤ fine.length ∧ fine.length ≤ 3) (hpos : ∀ c ∈ coarse, 1 ≤ c) :
+    (∃ p, partitionStructured fine coarse = .ok p) ↔ DimsOk fine coarse := by
+  have hbad : ∀ f c, 1 ≤ c → (axisBad f c = false ↔ c ≤ f) := by
+    intro f c hc
+    simp only [axisBad, Bool.and_eq_false_iff, decide_eq_false_iff_not]
+    constructor
+    · rintro (h | h)
+      · omega
+      · rcases Nat.lt_or_ge f c with hlt | hge
+        · exact absurd (Nat.div_eq_of_lt hlt) h
+        · exact hge
+    · intro h
+      right
+      have := Nat.div_pos h (by omega)
+      omega
+  rcases fine with _ | ⟨f0, _ | ⟨f1, _ | ⟨f2, _ | ⟨f3, fs⟩⟩⟩⟩
+  · simp at hnd
+  · rcases coarse with _ | ⟨c0, _ | ⟨c1, cs⟩⟩ <;> simp at hl
+    have p0 := hpos c0 (by simp)
+    simp only [partitionStructured, DimsOk, List.zip_cons_cons, List.zip_nil_left, List.mem_cons,
+      List.not_mem_nil, or_false, forall_eq]
+    by_cases hb : axisBad f0 c0 = true
+    · have : ¬ c0 ≤ f0 := fun h => by rw [(hbad f0 c0 p0).mpr h] at hb; cases hb
+      simp [hb, this]
+    · have : c0 ≤ f0 := (hbad f0 c0 p0).mp (by simpa using hb)
+      simp [hb, this, p0]
+  · rcases coarse with _ | ⟨c0, _ | ⟨c1, _ | ⟨c2, cs⟩⟩⟩ <;> simp at hl
+    have p0 := hpos c0 (by simp)
+    have p1 := hpos c1 (by simp)
+    constructor
+    · rintro ⟨p, hp⟩
+      intro q hq
+      simp at hq
+      unfold partitionStructured at hp
+      simp only at hp
+      split at hp
+      · cases hp
+      · rename_i hb
+        simp only [Bool.or_eq_true, not_or, Bool.not_eq_true] at hb
+        rcases hq with rfl | rfl
+        · exact ⟨p0, (hbad _ _ p0).mp hb.1⟩
+        · exact ⟨p1, (hbad _ _ p1).mp hb.2⟩
+    · intro hd
+      exact ⟨_, ps2 (hd (f0, c0) (by simp)) (hd (f1, c1) (by simp))⟩
+  · rcases coarse with _ | ⟨c0, _ | ⟨c1, _ | ⟨c2, _ | ⟨c3, cs⟩⟩⟩⟩ <;> simp at hl
+    have p0 := hpos c0 (by simp)
+    have p1 := hpos c1 (by simp)
+    have p2 := hpos c2 (by simp)
+    constructor
+    · rintro ⟨p, hp⟩
+      intro q hq
+      simp at hq
+      unfold partitionStructured at hp
+      simp only at hp
+      split at hp
+      · cases hp
+      · rename_i hb
+        simp only [Bool.or_eq_true, not_or, Bool.not_eq_true] at hb
+        rcases hq with rfl | rfl | rfl
+        · exact ⟨p0, (hbad _ _ p0).mp hb.1.1⟩
+        · exact ⟨p1, (hbad _ _ p1).mp hb.1.2⟩
+        · exact ⟨p2, (hbad _ _ p2).mp hb.2⟩
+    · intro hd
+      exact ⟨_, ps3 (hd (f0, c0) (by simp)) (hd (f1, c1) (by simp)) (hd (f2, c2) (by simp))⟩
+  · simp at hnd
+
+/-- the `partition` wrapper on a tensor grid (no pymetis) = `partition_structured(num_part=…)`: in range, total -/
+theorem partition_wrapper_tensor (num : Nat) (fine : List Nat) (hf : ∀ f ∈ fine, 1 ≤ f)
+    (hnd : 1 ≤ fine.length ∧ fine.length ≤ 3) :
+    ∃ c p, dcd exactRoot num fine = .ok c ∧ partitionWrapperTensor num fine = .ok p ∧
+      p.length = fine.foldl (· * ·) 1 ∧
+      (∀ x ∈ p, 0 ≤ x ∧ x < ((c.foldl (· * ·) 1 : Nat) : Int)) ∧
+      (∀ q : Nat, q < c.foldl (· * ·) 1 → (q : Int) ∈ p) := by
+  obtain ⟨c, p, h1, h2, h3, h4, h5, _⟩ := partition_structured_num_part exactRoot exactRoot_ok num fine hf hnd
+  refine ⟨c, p, h1, ?_, h3, h4, h5⟩
+  unfold partitionWrapperTensor
+  rw [h1]
+  exact h2
+
 /-! ## non-vacuity: concrete instances (regression inputs of the repaired defects F11/F12 among them) -/
 
 /-- 2×1 Cartesian grid: faces 0–2 vertical, 3–4 bottom, 5–6 top; nodes 0–2 bottom row, 3–5 top row -/
@@ -686,5 +890,19 @@ example : (pcoord [⟨0, 4, 2⟩, ⟨0, 3, 2⟩] [[1/2, 1/2], [5/2, 1/2], [7/2, 
 example : (pcoord [⟨0, 4, 2⟩] [[4]]).toOption = none := by decide +kernel
 example : AllOk [⟨0, 4, 2⟩, ⟨0, 3, 2⟩] [5/2, 1/2] := by
   refine ⟨⟨by decide, by decide +kernel, by decide +kernel⟩, ⟨by decide, by decide +kernel, by decide +kernel⟩, trivial⟩
+
+/-- geometry locality on the 2×1 grid with unit-square coordinates: cell 1 extracted alone sees the same
+    four signed faces with the same node coordinates -/
+example : cellData [[0, 1, 2, 3]] [[-1, 1, -1, 1]] [[0, 2], [1, 3], [0, 1], [2, 3]]
+      (subCoords [[0, 0], [1, 0], [2, 0], [0, 1], [1, 1], [2, 1]] [1, 2, 4, 5]) 0
+    = cellData g21.cfFaces g21.cfSigns g21.fn [[0, 0], [1, 0], [2, 0], [0, 1], [1, 1], [2, 1]] 1 := by
+  decide +kernel
+
+example : expandNd [1, 4] 2 = [2, 3, 8, 9] := by decide +kernel
+example : (subgridToGrid 5 3 [1, 4] [2] 2).toOption = some ([2, 3, 8, 9], [4, 5]) := by decide +kernel
+example : (subgridToGrid 4 3 [1, 4] [2] 1).toOption = none := by decide +kernel
+example : (partitionWrapperTensor 3 [5, 2]).toOption = some [0, 0, 0, 0, 0, 1, 1, 1, 1, 1] := by decide +kernel
+example : dimsOkB [11, 2] [4, 2] = true ∧ dimsOkB [5] [7] = false := by decide +kernel
+example : allOkB [⟨0, 4, 2⟩, ⟨0, 3, 2⟩] [5/2, 1/2] = true ∧ allOkB [⟨0, 4, 2⟩] [4] = false := by decide +kernel
 
 end PorepyVerif.C22
